@@ -44,6 +44,9 @@ func checkC05(c *core.Ctx) {
 	c.NotDecided("that window functions return the fold; results of the queries")
 	c.Trust("bun binds ? placeholders to arguments in order")
 	ruleTemporalClauses(c)
+	// "accounts appear only once their first usage is at or before t": first_usage must follow
+	// back-dated transactions (shared with C18)
+	ruleAccountsLifecycle(c)
 }
 
 type temporalUse struct {
